@@ -7,6 +7,7 @@
   string and cannot crash is the totality of `pluginParser : List Char → Except PErr _`.
 -/
 import SlicecVerif.Lemmas.PluginSpec
+import SlicecVerif.Lemmas.PluginSpecNormal
 
 namespace Slicec.C19
 
@@ -177,6 +178,64 @@ example : (∃ e, pluginParser ['p', ',', '='] = .error e) ∧ ¬ (∃ e, plugin
   · exact ⟨.missingKey, by decide⟩
   · rintro ⟨e, he⟩; revert he; cases e <;> decide
 
+/-! ## what an accepted specification looks like, and the writer seen from the parser's side -/
+
+/-- Whatever string is accepted, the value handed on is in normal form: the path is non-empty and has no
+    surrounding white space, every key is non-empty, and keys and values have no surrounding white space
+    (`Normal`, Lemmas/PluginSpecNormal.lean). For EVERY string — the converse reading of the rejection
+    clause: no string at all makes the parser hand on an empty path or an empty key. -/
+theorem accepted_is_normal (s : List Char) (r : List Char × List Arg) (h : pluginParser s = .ok r) :
+    Normal r := pluginParser_ok_normal s r h
+
+/-- the rejection clause stated on the result: an accepted specification never carries an empty path or an
+    empty key -/
+theorem never_accepts_empty_path_or_key (s : List Char) (r : List Char × List Arg) (h : pluginParser s = .ok r) :
+    r.1 ≠ [] ∧ ∀ a ∈ r.2, a.1 ≠ [] :=
+  ⟨(accepted_is_normal s r h).1, fun a ha => ((accepted_is_normal s r h).2.2 a ha).1⟩
+
+/-- Writing back what was read is a fixed point: if ANY string `s` is accepted with path `p` and arguments
+    `as`, then rendering `p`, `as` and parsing again yields exactly `p`, `as` — nothing is trimmed or
+    re-split a second time — provided no component other than the last ends in a backslash (the one
+    thing the syntax cannot write, see above). -/
+theorem reparse_fixed_point (s : List Char) (p : List Char) (as : List Arg)
+    (h : pluginParser s = .ok (p, as))
+    (hb : ∀ c ∈ (components p as).dropLast, endsBs c = false) :
+    pluginParser (render p as) = .ok (p, as) := by
+  obtain ⟨hne, htp, hargs⟩ := accepted_is_normal s (p, as) h
+  have := parse_render p as (by rw [htp]; exact hne) (trim_key_of_normal as hargs) hb
+  rw [this]
+  simp only at htp
+  rw [htp, map_trimArg_of_normal as hargs]
+
+/-- The writer is injective on normal forms: two different (path, arguments) values in normal form are
+    never written as the same specification string (under the backslash side condition on both). -/
+theorem render_injective (p p' : List Char) (as as' : List Arg)
+    (hn : Normal (p, as)) (hn' : Normal (p', as'))
+    (hb : ∀ c ∈ (components p as).dropLast, endsBs c = false)
+    (hb' : ∀ c ∈ (components p' as').dropLast, endsBs c = false)
+    (h : render p as = render p' as') : p = p' ∧ as = as' := by
+  obtain ⟨hne, htp, hargs⟩ := hn
+  obtain ⟨hne', htp', hargs'⟩ := hn'
+  simp only at htp htp' hne hne' hargs hargs'
+  have e1 := parse_render p as (by rw [htp]; exact hne) (trim_key_of_normal as hargs) hb
+  have e2 := parse_render p' as' (by rw [htp']; exact hne') (trim_key_of_normal as' hargs') hb'
+  rw [h, e2, htp, htp', map_trimArg_of_normal as hargs, map_trimArg_of_normal as' hargs'] at e1
+  injection e1 with e1
+  injection e1 with e3 e4
+  exact ⟨e3.symm, e4.symm⟩
+
+/-- `str::trim` applied twice is `str::trim` (used above; stated here because the property's "trimmed of
+    surrounding whitespace" is about it) -/
+theorem trim_idempotent (l : List Char) : trim (trim l) = trim l := trim_idem l
+
+/-- non-vacuity: an accepted string whose result meets the side condition, re-rendered and re-parsed -/
+example : pluginParser [' ', 'p', ' ', ',', ' ', 'k', '\\', '=', ' ', '=', ' ', 'v', '\\', ',', 'w', ' ', ',', 'x', ','] =
+    .ok (['p'], [(['k', '='], ['v', ',', 'w']), (['x'], [])]) := by decide
+example : pluginParser (render ['p'] [(['k', '='], ['v', ',', 'w']), (['x'], [])]) =
+    .ok (['p'], [(['k', '='], ['v', ',', 'w']), (['x'], [])]) := by decide
+/-- without normal form the writer is NOT injective on what is read back (surrounding blanks are lost) -/
+example : pluginParser (render [' ', 'p'] []) = pluginParser (render ['p'] []) := by decide
+
 end Slicec.C19
 
 #print axioms Slicec.C19.rejects_empty
@@ -187,3 +246,8 @@ end Slicec.C19
 #print axioms Slicec.C19.key_without_eq
 #print axioms Slicec.C19.parser_eq_spec
 #print axioms Slicec.C19.rejects_iff
+#print axioms Slicec.C19.accepted_is_normal
+#print axioms Slicec.C19.never_accepts_empty_path_or_key
+#print axioms Slicec.C19.reparse_fixed_point
+#print axioms Slicec.C19.render_injective
+#print axioms Slicec.C19.trim_idempotent
